@@ -13,6 +13,58 @@ NETWORK = ('http', 'https', 'ftp', 'ws', 'wss', 'gopher')
 DEFAULT = {'ftp': 21, 'gopher': 70, 'http': 80, 'https': 443, 'ws': 80, 'wss': 443}
 
 
+def ref_ipv4(host):
+    """Reference reading of numeric IPv4 spellings (inet_aton / URL standard): one to four
+    parts, each decimal, 0-octal or 0x-hexadecimal; the last part fills the remaining
+    bytes; one trailing dot allowed.  Returns the dotted quad, or None when the text is not
+    an IPv4 spelling (then it is a host name and must stay one)."""
+    h = host.lower()
+    if h.endswith('.'):
+        h = h[:-1]
+    parts = h.split('.')
+    if not 1 <= len(parts) <= 4:
+        return None
+    nums = []
+    for p in parts:
+        if re.fullmatch(r'0x[0-9a-f]*', p):
+            nums.append(int(p[2:] or '0', 16))
+        elif re.fullmatch(r'0[0-7]*', p):
+            nums.append(int(p, 8))
+        elif re.fullmatch(r'[1-9][0-9]*', p):
+            nums.append(int(p))
+        else:
+            return None
+    if any(x > 255 for x in nums[:-1]) or nums[-1] >= 256 ** (5 - len(nums)):
+        return None
+    v = nums[-1] + sum(x << (24 - 8 * i) for i, x in enumerate(nums[:-1]))
+    return '.'.join(str(v >> s & 255) for s in (24, 16, 8, 0))
+
+
+def ipv4_problem(u, n):
+    """Input host (ASCII spellings only) against the reference IPv4 reader."""
+    m = re.match(r'^[A-Za-z][A-Za-z0-9+.-]*://([^/?#]*)', u.strip())
+    if m and re.search(r'[\\\s]', m.group(1)):
+        return None     # backslash / inner whitespace: where the authority ends is not defined here
+    m2 = re.match(r'^[a-z][a-z0-9+.-]*://([^/?#]*)', n)
+    if not m or not m2:
+        return None
+    def hostof(auth):
+        hp = auth.rsplit('@', 1)[-1]
+        if hp.startswith('['):
+            return None
+        return hp.rsplit(':', 1)[0] if re.search(r':\d*$', hp) else hp
+    hin, hout = hostof(m.group(1)), hostof(m2.group(1))
+    if not hin or hout is None or not hin.isascii() or '%' in hin:
+        return None
+    ref = ref_ipv4(hin)
+    quad = re.fullmatch(r'\d+\.\d+\.\d+\.\d+', hout)
+    if ref is None and quad and hout != hin.lower():
+        return 'host %r is not an IPv4 spelling but is normalised to the address %s' % (hin, hout)
+    if ref is not None and hout != ref:
+        return 'IPv4 spelling %r (= %s) is normalised to host %r' % (hin, ref, hout)
+    return None
+
+
 def canonical_problem(n, ui):
     """Predicate from the property statement, evaluated on the normalised string."""
     if not n.isascii():
@@ -74,7 +126,7 @@ def check_one(u, encoding, res, seen, tag):
         return
     res['outcomes']['accepted'] = res['outcomes'].get('accepted', 0) + 1
     res['distinct'].add(h64(n))
-    v = canonical_problem(n, ui)
+    v = canonical_problem(n, ui) or ipv4_problem(u, n)
     if v is None:
         try:
             ui2 = URLInfo.parse(n, encoding=encoding)
